@@ -115,6 +115,13 @@ def gen(rng, tier):
     out.append("(panic-prog (install enable disable (panic 1)))")
     out.append("(panic-prog (enable (catch (catch (catch (catch (catch (catch level (panic 1)) level) level) "
                "disable (catch (panic 2)) level) backtrace) level) level backtrace (panic 3)))")
+    # nesting far beyond anything a narrow counter holds: the innermost frame is the one that catches
+    for depth in (127, 128, 129, 255, 256, 257, 300) if tier == "quick" else (127, 128, 129, 255, 256, 257, 300, 1000):
+        for inner in ("level (panic 1)", "(panic 1) level", "level"):
+            body = inner
+            for _ in range(depth):
+                body = "(catch %s)" % body
+            out.append("(panic-prog (enable %s level backtrace (catch (panic 2)) disable))" % body)
     full = 5 if tier == "quick" else 6
     rate = 0.005 if tier == "quick" else 0.003
     for n in range(0, full + 1):
